@@ -1,6 +1,6 @@
 (* C19 — property theorems only. *)
 From Coq Require Import List Bool ZArith String Ascii.
-From V Require Import C19.Model C19.Proofs.
+From V Require Import C19.Model C19.Proofs C19.RoundTrip.
 Import ListNotations.
 
 (* A residue matches a request iff it agrees with every part that is given (chain, residue
@@ -42,6 +42,12 @@ Theorem unknown_target_is_error : forall mols reqs q rs r,
   run_system mols reqs = NameErr.
 Proof. exact unknown_target_is_error_lemma. Qed.
 Print Assumptions unknown_target_is_error.
+
+(* A request spelled the way the program itself spells residues is read back as itself: chain without '-', residue
+   name without '-' and '#', non-negative residue number ('#' is inserted when the name ends in a digit). *)
+Theorem spelled_request_reads_back : forall s, wf_spec s -> parse_residue_spec (format_spec s) = PSpec s.
+Proof. exact parse_format_roundtrip. Qed.
+Print Assumptions spelled_request_reads_back.
 
 Local Open Scope string_scope.
 Example nonvacuous :
